@@ -57,7 +57,7 @@ def work(sid):
     return out
 
 
-ids = sorted(p.split("seeded_raw/")[1].rsplit("/", 1)[0] for p in glob.glob(os.path.join(VERIF, "seeded_raw", "C*", "m*", "patch.diff")))
+ids = sorted(p.split("seeded_raw/")[1].rsplit("/", 1)[0] for p in glob.glob(os.path.join(VERIF, "seeded_raw", "C*", "m[0-9]", "patch.diff")))
 if len(sys.argv) > 1:
     ids = [i for i in ids if i.split("/")[0] in sys.argv[1].split(",")]
 with ThreadPoolExecutor(8) as ex:
